@@ -388,3 +388,44 @@ MUTANTS += [
     m("c19-bps-nvdim", ["C19"], T, "    elif field.nvdim != 3:\n        raise ValueError(f\"The field must be 3D vector", "    elif field.nvdim < 3:\n        raise ValueError(f\"The field must be 3D vector"),
     m("c19-bl-formula", ["C19"], U, "2 * cmath.log(exp_omega).imag / (4 * np.pi)", "cmath.log(exp_omega).imag / (4 * np.pi)"),
 ]
+
+MUTANTS += [
+    # ------------------------------------------------------------------ C18
+    m("c18-compose-right", ["C18"], ROT, "self._rotation = rotation * self._rotation", "self._rotation = self._rotation * rotation"),
+    m("c18-compose-replace", ["C18"], ROT, "self._rotation = rotation * self._rotation", "self._rotation = rotation"),
+    m("c18-clear-keeps-field", ["C18"], ROT, "        self._rotated_field = self._orig_field\n", "        pass\n"),
+    m("c18-rotate-from-rotated", ["C18"], ROT, "        if self._orig_field.nvdim == 1:\n            rot_field = self._orig_field.array", "        if self._orig_field.nvdim == 1:\n            rot_field = self._rotated_field.array"),
+    m("c18-positions-forward", ["C18"], ROT, "new_pos_old_mesh = self._rotation.inv().apply(new_mesh_pos)", "new_pos_old_mesh = self._rotation.apply(new_mesh_pos)"),
+    m("c18-vectors-inverse", ["C18"], ROT, "self._rotation.apply(array)", "self._rotation.inv().apply(array)"),
+    m("c18-no-argsort", ["C18"], ROT, "[..., ordered_idx.argsort()]", "[..., ordered_idx]"),
+    m("c18-region-off-centre", ["C18"], ROT, "p1=(self._orig_field.mesh.region.center - edge_centre_length),", "p1=(self._orig_field.mesh.region.pmin - edge_centre_length),"),
+    m("c18-fill-nan", ["C18"], ROT, "fill_value=0, bounds_error=False", "fill_value=None, bounds_error=False"),
+    m("c18-accept-2d", ["C18"], ROT, "if field.mesh.region.ndim != 3:", "if field.mesh.region.ndim > 3:"),
+    m("c18-accept-nvdim2", ["C18"], ROT, "if field.nvdim not in [1, 3]:", "if field.nvdim not in [1, 2, 3]:"),
+    m("c18-grid-axis", ["C18"], ROT, "- self._orig_field.mesh.region.center[i]", "- self._orig_field.mesh.region.center[0]"),
+    m("c18-drops-mapping", ["C18"], ROT, "            vdim_mapping=self._orig_field.vdim_mapping,\n", ""),
+    m("c18-component-mix", ["C18"], ROT, "result[..., i] = self._create_interpolation_funcs(rot_field[..., i])(", "result[..., i] = self._create_interpolation_funcs(rot_field[..., 0])("),
+]
+
+MUTANTS += [
+    # ------------------------------------------------------------------ C20
+    m("c20-scalar-no-copy", ["C20"], MPL, "values = self.field.array.copy().reshape(self.field.mesh.n)", "values = self.field.array.reshape(self.field.mesh.n)", anchor="def scalar("),
+    m("c20-vector-no-copy", ["C20"], MPL, "        values = self.field.array.copy()\n", "        values = self.field.array\n"),
+    m("c20-contour-no-copy", ["C20"], MPL, "values = self.field.array.copy().reshape(self.field.mesh.n)", "values = self.field.array.reshape(self.field.mesh.n)", anchor="def contour("),
+    m("c20-lightness-hue-no-copy", ["C20"], MPL, "values = self.field.array.copy().reshape(self.field.mesh.n)", "values = self.field.array.reshape(self.field.mesh.n)", anchor="lightness_field = self.field.norm\n        elif lightness_field.nvdim != 1:"),
+    m("c20-scalar-not-transposed", ["C20"], MPL, 'cp = ax.imshow(np.transpose(values), origin="lower", extent=extent, **kwargs)', 'cp = ax.imshow(values, origin="lower", extent=extent, **kwargs)'),
+    m("c20-scalar-origin", ["C20"], MPL, 'cp = ax.imshow(np.transpose(values), origin="lower", extent=extent, **kwargs)', 'cp = ax.imshow(np.transpose(values), extent=extent, **kwargs)'),
+    m("c20-extent-order", ["C20"], MPL, "return [pmin[0], pmax[0], pmin[1], pmax[1]]", "return [pmin[0], pmin[1], pmax[0], pmax[1]]"),
+    m("c20-extent-reference", ["C20"], MPL, "reference_point = (0, 0)  # 2d point", "reference_point = None  # 2d point"),
+    m("c20-ylabel-dim", ["C20"], MPL, 'rf"{self.field.mesh.region.dims[1]}"', 'rf"{self.field.mesh.region.dims[0]}"'),
+    m("c20-contour-positions", ["C20"], MPL, "points2 = self.field.mesh.cells[1] / multiplier", "points2 = self.field.mesh.cells[1]", anchor="def contour("),
+    m("c20-vector-no-filter", ["C20"], MPL, "        self._filter_values(self.field._valid_as_field, values)\n", ""),
+    m("c20-scalar-filter-after-draw", ["C20"], MPL, "        self._filter_values(filter_field, values)\n\n        if symmetric_clim", "        if symmetric_clim"),
+    m("c20-filter-inverted", ["C20"], MPL, "values[filter_field.array.reshape(self.field.mesh.n) == 0] = np.nan", "values[filter_field.array.reshape(self.field.mesh.n) != 0] = np.nan"),
+    m("c20-vector-components-positional", ["C20"], MPL, "arrow_x = self.field.vdims.index(vdims[0]) if vdims[0] else None", "arrow_x = 0 if vdims[0] else None"),
+    m("c20-vector-default-components", ["C20"], MPL, "                self.field._r_dim_mapping[self.field.mesh.region.dims[0]],\n                self.field._r_dim_mapping[self.field.mesh.region.dims[1]],\n            ]\n        elif len(vdims) != 2:", "                self.field.vdims[0],\n                self.field.vdims[1],\n            ]\n        elif len(vdims) != 2:"),
+    m("c20-accept-3d", ["C20"], MPL, "        if field.mesh.region.ndim != 2:\n", "        if field.mesh.region.ndim < 2:\n"),
+    m("c20-scalar-accept-vector", ["C20"], MPL, "        if self.field.nvdim > 1:\n            raise RuntimeError(f\"Cannot plot {self.field.nvdim=} field.\")\n", ""),
+    m("c20-angle-swapped", ["C20"], PU, "getattr(field, y).array if x is not None else 0,\n        getattr(field, x).array if y is not None else 0,", "getattr(field, x).array if x is not None else 0,\n        getattr(field, y).array if y is not None else 0,"),
+    m("c20-lightness-transparent", ["C20"], MPL, "        rgba[np.isnan(rgb[..., 0])] = 0\n", ""),
+]
